@@ -22,7 +22,7 @@ def usb_part(ctx):
     from units import c20
     rep = ctx.report
     before = len(rep.prop_failures)
-    cases = [c for c in c20.gen_grid(ctx.rng) + c20.gen_random(ctx.rng, int(40 * ctx.budget)) if any((op[0] if isinstance(op, (list, tuple)) else None) == "write" for op in c.get("ops", []))]
+    cases = [c for c in c20.gen_grid(ctx.rng) + c20.gen_lifecycle(ctx.rng) + c20.gen_random(ctx.rng, int(40 * ctx.budget)) if any((op[0] if isinstance(op, (list, tuple)) else None) == "write" for op in c.get("ops", []))]
     for i in range(0, len(cases), 400):
         c20.check_cases(ctx, cases[i:i + 400])
     c20.check_sessions(ctx, [c20.gen_session(ctx.rng) for _ in range(max(2, int(4 * ctx.budget)))])
